@@ -6,7 +6,7 @@ import os
 import sys
 
 from ..cli import C, find_config_dir, load_rules_or_exit, _check_deprecated_description_cleaning, _print_deprecation_warnings
-from ..config_loader import load_config
+from ..config_loader import load_config, load_supplemental_sources
 from ..merchant_utils import get_all_rules, get_transforms, explain_description
 from ..analyzer import parse_amex, parse_boa, parse_generic_csv
 from ..analyzer import analyze_transactions, export_json, export_markdown, build_merchant_json
@@ -63,7 +63,13 @@ def cmd_explain(args):
 
     # Parse transactions (quietly)
     all_txns = []
+    # Supplemental sources are query-only: rules can read them, they are not transactions
+    supplemental_data = load_supplemental_sources(config, config_dir)
+
     for source in data_sources:
+        if source.get('_supplemental', False):
+            continue
+
         filepath = os.path.join(config_dir, '..', source['file'])
         filepath = os.path.normpath(filepath)
         if not os.path.exists(filepath):
@@ -87,7 +93,8 @@ def cmd_explain(args):
                 txns = parse_generic_csv(filepath, format_spec, rules,
                                          source_name=source.get('name', 'CSV'),
                                          decimal_separator=source.get('decimal_separator', '.'),
-                                         transforms=transforms)
+                                         transforms=transforms,
+                                         data_sources=supplemental_data)
             else:
                 continue
         except Exception:
@@ -180,7 +187,8 @@ def cmd_explain(args):
 
                 # Try treating query as a raw description for rule matching
                 amount = getattr(args, 'amount', None)
-                trace = explain_description(merchant_query, rules, amount=amount, transforms=transforms)
+                trace = explain_description(merchant_query, rules, amount=amount, transforms=transforms,
+                                            data_sources=supplemental_data)
                 if not trace['is_unknown']:
                     # It matched a rule - show the explanation
                     found_any = True
